@@ -46,7 +46,7 @@ Proof. destruct k; simpl; lia. Qed.
 Lemma step_decreases cfg s e s' :
   all_disciplined cfg -> Own s -> step cfg s e = Some s' -> total s' < total s.
 Proof.
-  intros HC HS ST. destruct e as [o|o|n o r|n o r|n o was|o|o]; simpl in ST.
+  intros HC HS ST. destruct e as [o|o rs|n o r|n o r|n o was|o|o]; simpl in ST.
   - destruct (op_of s o) eqn:Eo; try discriminate.
     assert (R : o < length (ops s)) by (apply op_of_range; congruence).
     pose proof (disciplined_kind cfg o HC) as D.
@@ -161,7 +161,7 @@ Proof.
   pose proof (single_disciplined cfg HC) as HD.
   assert (RR : forall o, op_of s o <> SDone -> o < length cfg).
   { intros o H. rewrite <- (sh_ops _ _ _ HSh). apply op_of_range; auto. }
-  destruct e as [o|o|n o r|n o r|n o was|o|o]; simpl in ST.
+  destruct e as [o|o rs|n o r|n o r|n o was|o|o]; simpl in ST.
   - destruct (op_of s o) eqn:Eo; try discriminate.
     pose proof (single_kind cfg o HC) as K.
     assert (Ro : o < length cfg) by (apply RR; congruence).
@@ -300,7 +300,7 @@ Proof.
   exists [EIssue 0; EIssue 1; EReq 0 1 0; EReq 0 0 1; EAcq 0 1 0; EIssue 2; EReq 1 2 2; EAcq 1 2 2; ERel 0 1 true;
           EAcq 0 0 1; EDone 1; ERel 1 2 true; ERel 0 0 true; EDone 2; EDone 0].
   eexists. split; [vm_compute; reflexivity|]. split; [|split; reflexivity].
-  intros e. destruct e as [o|o|n o r|n o r|n o was|o|o];
+  intros e. destruct e as [o|o rs|n o r|n o r|n o was|o|o];
     do 4 (try (destruct o as [|o]; try reflexivity));
     do 3 (try (destruct n as [|n]; try reflexivity)).
 Qed.
